@@ -188,7 +188,7 @@ def c_value_index(ex, st, callee, a):
     return [(None, jindex(v, k))]
 
 
-@contract(r'^<serde_json::Value as PartialEq>::(eq|ne)$')
+@contract(r'^<serde_json::Value as PartialEq>::(eq|ne)$', r'^<&serde_json::Value as PartialEq>::(eq|ne)$', r'^<&&serde_json::Value as PartialEq>::(eq|ne)$')
 def c_value_eq(ex, st, callee, a):
     r = to_jv(st, a[0]) == to_jv(st, a[1]); return [(None, Not(r) if callee.endswith('::ne') else r)]
 
@@ -278,6 +278,7 @@ def apply_elem_fn(ex, st, fn, callee, args):
 @contract(r' as Iterator>::filter::<')
 def c_iter_filter(ex, st, callee, a):
     it = a[0]
+    if isinstance(it, tuple) and it[0] in ('hiter', 'hfilter'): return c_hiter_filter(ex, st, callee, a)
     if not (isinstance(it, tuple) and it[0] == 'lazyiter'): raise Unsupported('filter over ' + str(it)[:60])
     return [(None, ('lazyiter', it[1], it[2], it[3], tuple(it[4] if len(it) > 4 else ()) + ((a[1], callee),)))]
 
@@ -456,12 +457,19 @@ def c_vmap_index(ex, st, callee, a):
 @contract(r'^<&HashMap<std::string::String, Box<dyn erased_serde::Serialize>> as IntoIterator>::into_iter$')
 def c_hmap_ref_iter(ex, st, callee, a):
     m = deref(st, a[0])
-    if len(m) < 4 or m[3] is None: raise Unsupported('iteration over a claims map whose key set is not enumerated')
+    if len(m) < 4 or m[3] is None:
+        # an explicit loop over an arbitrary claims map: the map is restricted to at most two entries with symbolic keys (a stated bound; the lazy
+        # iter().map().collect() pipelines of the unchanged code need no such bound)
+        n_ = next(fresh); k1, k2 = String('loop_key%d_a' % n_), String('loop_key%d_b' % n_); b1, b2 = Bool('loop_has%d_a' % n_), Bool('loop_has%d_b' % n_)
+        st.pc.append(And(k1 != k2, m[1] == Store(Store(K(S, False), k1, b1), k2, b2)))
+        m = ('hmap', m[1], m[2], (k1, k2)); upd(st, a[0], m)
+        ex.stats['bounds']['claims map iterated by an explicit loop'] = 'at most 2 entries (symbolic keys)'
     ex.stats['bounds']['entries of an iterated claims map'] = max(ex.stats['bounds'].get('entries of an iterated claims map', 0), len(m[3]))
     return [(None, ('hiter', a[0], m[3], 0, 'claims'))]
 
 
-@contract(r'^<&HashMap<std::string::String, Box<dyn for<.*>> as IntoIterator>::into_iter$', r'^<&HashMap<std::string::String, serde_json::Value> as IntoIterator>::into_iter$')
+@contract(r'^<&HashMap<std::string::String, Box<dyn for<.*>> as IntoIterator>::into_iter$', r'^<&HashMap<std::string::String, serde_json::Value> as IntoIterator>::into_iter$',
+          r'^HashMap::<std::string::String, Box<dyn for<.*>>::iter$', r'^HashMap::<std::string::String, serde_json::Value>::iter$')
 def c_vmap_ref_iter(ex, st, callee, a):
     m = deref(st, a[0])
     # distinct keys in insertion order
@@ -470,6 +478,56 @@ def c_vmap_ref_iter(ex, st, callee, a):
         if not any(k.eq(x) for x in ks): ks.append(k)
     ex.stats['bounds']['entries of an iterated validator map'] = max(ex.stats['bounds'].get('entries of an iterated validator map', 0), len(ks))
     return [(None, ('hiter', a[0], tuple(ks), 0, 'validators'))]
+
+
+@contract(r'^<std::collections::hash_map::Iter<.*> as Iterator>::filter::<')
+def c_hiter_filter(ex, st, callee, a):
+    it = a[0]
+    if not (isinstance(it, tuple) and it[0] in ('hiter', 'hfilter')): raise Unsupported('filter over ' + str(it)[:60])
+    return [(None, ('hfilter', it, a[1], callee))]
+
+
+@contract(r'^<std::iter::Filter<std::collections::hash_map::Iter<.*>, .*> as Iterator>::(try_for_each|for_each)::<', r'^<std::collections::hash_map::Iter<.*> as Iterator>::(try_for_each|for_each)::<')
+def c_hiter_for_each(ex, st, callee, a):
+    """for_each / try_for_each over the (enumerated) entries of a map iterator, with the crate's filter predicates: the loop is unrolled over the entries"""
+    it = deref(st, a[0]) if isinstance(a[0], tuple) and a[0][0] == 'ref' else a[0]; preds = []
+    while isinstance(it, tuple) and it[0] == 'hfilter': preds.insert(0, (it[2], it[3])); it = it[1]
+    if not (isinstance(it, tuple) and it[0] == 'hiter'): raise Unsupported('for_each over ' + str(it)[:60])
+    is_try = 'try_for_each' in callee
+    done = []; frontier = [(st, it)]
+    for _round in range(len(it[2]) + 1):
+        nxt = []
+        for s1, cur in frontier:
+            c = s1.new_cell(cur)
+            for o in c_hiter_next(ex, s1, callee, [('ref', c, ())]):
+                cond, val = o[0], o[1]; s2 = o[2] if len(o) > 2 else s1.fork()
+                if cond is not None:
+                    if not ex.feasible(s2, cond): continue
+                    s2.pc.append(cond)
+                if val[2] == 'None': done.append((s2, ok(UNIT) if is_try else UNIT)); continue
+                elem = val[3][0]; cur2 = s2.store[c]
+                paths = [(s2, True)]
+                for clo, cal in preds:       # Filter passes `&Self::Item`
+                    np_ = []
+                    for s3, keep in paths:
+                        if keep is not True: np_.append((s3, keep)); continue
+                        ec = s3.new_cell(elem)
+                        for s4, b in cm.call_closure(ex, s3, clo, cal, [('ref', ec, ())]):
+                            b = b if is_expr(b) else BoolVal(bool(b))
+                            if ex.feasible(s4, b): s5 = s4.fork(); s5.pc.append(b); np_.append((s5, True))
+                            if ex.feasible(s4, Not(b)): s6 = s4.fork(); s6.pc.append(Not(b)); np_.append((s6, False))
+                    paths = np_
+                for s3, keep in paths:
+                    if keep is not True: nxt.append((s3, cur2)); continue
+                    for s4, r in cm.call_closure(ex, s3, a[1], callee, [elem]):
+                        if isinstance(r, Panic): done.append((s4, r)); continue
+                        if is_try and isinstance(r, tuple) and r[0] == 'adt' and r[2] == 'Err': done.append((s4, r)); continue
+                        if is_try and isinstance(r, tuple) and r[0] == 'adt' and r[1] == 'ControlFlow' and r[2] == 'Break': done.append((s4, r)); continue
+                        nxt.append((s4, cur2))
+        frontier = nxt
+        if not frontier: break
+    if frontier: raise Unsupported('for_each: entries not exhausted after unrolling')
+    return [(None, r, s2) for s2, r in done]
 
 
 @contract(r'^<std::collections::hash_map::Iter<.*> as Iterator>::next$')
@@ -508,7 +566,8 @@ def c_box_as_ref(ex, st, callee, a):
     v = deref(st, a[0]); return [(None, v[1] if isinstance(v, tuple) and v[0] == 'boxed' else v)]
 
 
-@contract(r'^<dyn for<.* as Fn<\(&str, &serde_json::Value\)>>::call$', r'^<&dyn for<.* as Fn<\(&str, &serde_json::Value\)>>::call$')
+@contract(r'^<dyn for<.* as Fn<\(&str, &serde_json::Value\)>>::call$', r'^<&dyn for<.* as Fn<\(&str, &serde_json::Value\)>>::call$',
+          r'^<Box<dyn for<.*>> as Fn<\(&str, &serde_json::Value\)>>::call$', r'^<&Box<dyn for<.*>> as Fn<\(&str, &serde_json::Value\)>>::call$')
 def c_validator_call(ex, st, callee, a):
     v = a[0]
     while isinstance(v, tuple) and v[0] in ('ref', 'boxed'): v = deref(st, v) if v[0] == 'ref' else v[1]
@@ -521,6 +580,13 @@ def c_validator_call(ex, st, callee, a):
         st.log.append(('validator_call', v[1], k, val))
         kc, vc = st.new_cell(k), st.new_cell(val)
         return [(None, r, s2) for s2, r in call_closure(ex, st, v, callee, [k, ('ref', vc, ())])]
+    if isinstance(v, tuple) and (v[0] == 'fnitem' or (v[0] == 'adt' and v[2] is None and not v[3] and v[1][:1].islower())):
+        # a named crate function used as the validator (instead of a closure): its MIR body is run
+        name = v[1]; fs = [g for g in ex.fns if g.method == name and not g.impl and '{closure' not in g.name]
+        if len(fs) != 1: raise Unsupported('validator function %s: %d bodies' % (name, len(fs)))
+        st.log.append(('validator_call', name, k, val)); ex.stats['inlined'].add(fs[0].name)
+        vc = st.new_cell(val)
+        return [(None, r, s2) for s2, r in ex.run_sub(fs[0], [k, ('ref', vc, ())], st)]
     raise Unsupported('validator value ' + str(v)[:80])
 
 
